@@ -1,11 +1,10 @@
-\* C16 quick, liveness under weak fairness: the destructor returns; cancelled children are reaped
+\* vacuity / the code as found: destructor does not wait for background waits - CompletionOnce must be violated
 CONSTANTS
-  DtorWaitsBackground = TRUE
+  DtorWaitsBackground = FALSE
   NotifyOnAdd = TRUE
   DrainPriority = TRUE
   MCConfig = 0
-  Scenarios <- LiveQuickScenarios
+  Scenarios <- VacBgScenarios
 SPECIFICATION MCSpecSet
 INVARIANTS AtMostOnce ExactlyOnce LaneBound BgBound CompletionOnce OutputBeforeCompletion StatusTable ChildrenReaped
-PROPERTY Termination
-PROPERTY CancelReaps
+PROPERTY NoSpawnAfterCancel
